@@ -11,7 +11,7 @@ ALL = ["C%02d" % i for i in range(1, 19)]
 CHECKS = {
     "C09": (
         "exhaustive enumeration of all bit patterns + Hypothesis-generated nested types against own encoders (round-trip oracle)",
-        "Every bit pattern of every shipped Qint/Qfixed/Qchar type is enumerated (about 75k patterns) through from_bool/to_bool/from_bin/to_bin/const/runtime constructor/to_amplitudes/const_to_qtype; nested Tuple/Qlist/Qmatrix decoding is explored with generated types and values. Base-type part is exhaustive, nested part is sampled.",
+        "Every bit pattern of every shipped Qint/Qfixed/Qchar type is enumerated (about 75k patterns) through from_bool/to_bool/from_bin/to_bin/const/runtime constructor/to_amplitudes/const_to_qtype; every ordered pair (type or implementation base class used first, shipped type then judged) runs in a forked child so that order-of-first-use effects are decided per pair; nested Tuple/Qlist/Qmatrix decoding is explored with generated types and values (list-form outcomes decoded twice from the same object). Base-type and pair parts are exhaustive, nested part is sampled.",
         "Trusts the harness's own encoders as the statement of the documented bit layout and the measured-string convention pinned by test_qlassf.py; int-form decoding only where unambiguous.",
         "DESIGN.md section 3 C09",
     ),
@@ -77,8 +77,8 @@ CHECKS.update({
     ),
     "C07": (
         "Hypothesis (callee, caller) generator with element/repeated/swapped/clashing-name arguments, three delivery modes; differential oracle: caller expressions on all rows vs reference with the callee applied to the actual values; callee fingerprint invariant",
-        "Generated callers call 1..2 generated callees through defs=, inline def and oraclize; the caller's expression list is evaluated on every argument assignment against the reference composition, must contain no free symbol, and the callee object must be unchanged. Sampled over program pairs, exhaustive over inputs.",
-        "Actual and formal types match exactly; a call result is coerced to the callee's declared return type; rejected calls are counted only.",
+        "Generated callers call 1..2 generated callees through defs=, inline def and oraclize; the caller's expression list is evaluated on every argument assignment against the reference composition, must contain no free symbol, and the callee object must be unchanged; arguments include tuple literals for (nested) tuple formals and variables named like other formals. Sampled over program pairs, exhaustive over inputs.",
+        "Actual and formal types match exactly; a call result is coerced to the callee's declared return type; rejected calls are counted only, except a caller refused with a tuple-literal argument and accepted once the literal is bound to a local variable (metamorphic acceptance).",
         "DESIGN.md section 3 C07",
     ),
 })
@@ -86,7 +86,7 @@ CHECKS.update({
 CHECKS.update({
     "C08": (
         "Hypothesis parameterised-program generator + bind histories on one unbound object; differential oracle on all remaining-input rows vs reference with parameters set; frame invariant on the unbound object's AST",
-        "Programs with 1..3 Parameter[T] arguments are bound 2..4 times (permuted keywords, whole value domain, first binding repeated last); each bound function is compared on every assignment of the remaining arguments with the reference specialisation, equal bindings must give equal truth tables, the unbound AST and parameter table must never change, wrong parameter names/counts must raise. Sampled over programs and histories, exhaustive over remaining inputs.",
+        "Programs with 1..3 Parameter[T] arguments are bound 2..4 times (permuted keywords, whole value domain, first binding repeated last); each bound function is compared on every assignment of the remaining arguments with the reference specialisation, equal bindings must give equal truth tables, the unbound AST and parameter table must never change, wrong parameter names/counts must raise; a matrix-parameter family (m[i][j], several shapes) and nested tuple parameters are included; a refused bind is compared with the same function translated with the value assigned as a constant (must be refused too). Sampled over programs and histories, exhaustive over remaining inputs.",
         "Only rows on which the declared-width and the constant-width reading of a bound value agree are judged; parameters are not used as loop bounds or variable subscripts.",
         "DESIGN.md section 3 C08",
     ),
@@ -104,7 +104,7 @@ CHECKS.update({
 CHECKS.update({
     "C13": (
         "Hypothesis circuit generator per exporter gate set + compiled functions; differential oracle: own dense unitary vs qiskit Operator / cirq.unitary (bit-reversed) / sympy represent, and a reader of the emitted QASM dialect",
-        "Generated circuits and compiled functions (aliased, dotted and re-defined qubit names) are exported to Qiskit, Cirq and Sympy (circuit and gate) and QASM 2/3 (circuit and gate); the exported object must have the reference unitary on the same qubit indices, QASM must declare one formal per qubit in index order and list the same operations, qubits and parameters. Sampled over circuits (<=5..7 qubits) and targets.",
+        "Generated circuits and compiled functions (aliased, dotted and re-defined qubit names) are exported to Qiskit, Cirq and Sympy (circuit and gate) and QASM 2/3 (circuit and gate); the exported object must have the reference unitary on the same qubit indices, QASM must declare one formal per qubit in index order and list the same operations, qubits and parameters; circuits with edited name tables and an enumerated sweep of every gate kind x ordered qubit choice x target are included (a refusal of a gate outside an exporter's set is a clean rejection). Sampled over circuits (<=5..7 qubits) and targets.",
         "Trusts the frameworks' own interpretation of their objects and the dense simulator; the library's QASM dialect is the contract; qutip/pennylane exporters cannot run here and are not claimed.",
         "DESIGN.md section 3 C13",
     ),
@@ -149,7 +149,7 @@ CHECKS.update({
 CHECKS.update({
     "C10": (
         "Hypothesis histories of public-API operations over live, re-used objects (model-based: every step's closed recipe is re-evaluated alone in a fresh interpreter); frame invariant on the fingerprints of all live objects after every step",
-        "Generated histories (compile with varied options, bind, defs=[live], oraclize, four algorithm constructors, four exporters, decompile, circuit optimizer, truth_table, to_logicfun, repr) over a pool of programs with clashing and module-colliding names are executed in one process; each result's fingerprint must equal the one obtained by running the same recipe alone in a fresh interpreter, no live object's fingerprint may ever change, and a step may raise only if the fresh run raises. Sampled histories of 4..12 operations; every case starts from the library's import-time module state.",
+        "Generated histories (compile with varied options, bind, defs=[live], oraclize, four algorithm constructors, four exporters, decompile, circuit optimizer, truth_table, to_logicfun, repr) over a pool of programs with clashing and module-colliding names (incl. a parameterised caller compiled with defs and bound repeatedly) are executed in one process; an enumerated sweep takes every legal function name bound in a qlasskit module namespace (plus gate / circuit-attribute words) through a fixed set of operations and an unrelated battery before and after; each result's fingerprint must equal the one obtained by running the same recipe alone in a fresh interpreter, no live object's fingerprint may ever change, and a step may raise only if the fresh run raises. Sampled histories of 4..12 operations; every case starts from the library's import-time module state.",
         "Fingerprints cover name, args, returns, expressions, gate list, qubit map and qubit lists (exporter text / op lists for exports); fresh interpreters share PYTHONHASHSEED=0.",
         "DESIGN.md section 3 C10",
     ),
